@@ -109,7 +109,13 @@ def handleDecl (P : Prims) (j : Json) : Json :=
       | ts => (List.zip ts (itemsOf v)).any (fun (t, x) => typeOf x != t.origin))
   if bool! (fld j "nomodel") then Json.mkObj [("validators", vJ), ("unmodelled", Json.str "mapping value")] else
   if inexact then Json.mkObj [("validators", vJ), ("unmodelled", Json.str "item of another type (conversion)")] else
-  let d := declOf mro args acc post
+  let pre : PyVal → M PyVal := match lookup mro "pre_validate" with
+    | some (.val (.str h) _) => hookOf h
+    | _ => pure
+  let applied := match lookup mro "__applied__" with
+    | some (.val b _) => Py.truthy b
+    | _ => false
+  let d := { declOf mro args acc post with pre := pre, applied := applied }
   let originOk : PyVal → Bool := fun x => Py.isinstance x origin
   let r := parseTyped P d v
   let inst := instancecheck originOk (parseTyped P d) v
